@@ -332,6 +332,51 @@ func (c *Ctx) boundedAtCallers(p *ssa.Parameter, needHi bool, hi *big.Int, needL
 	return sites > 0 && okAll
 }
 
+// lenBoundedAtCallers: at every static call site the length of what is handed in for p is kept
+// at or below hi by a dominating test of len(arg).
+func (c *Ctx) lenBoundedAtCallers(p *ssa.Parameter, hi *big.Int) bool {
+	f := p.Parent()
+	idx := -1
+	for i, q := range f.Params {
+		if q == p {
+			idx = i
+		}
+	}
+	if idx < 0 {
+		return false
+	}
+	sites, okAll := 0, true
+	for _, g := range c.RepoFns {
+		if c.isTestFile(g.Pos()) {
+			continue
+		}
+		eachCall(g, func(call ssa.CallInstruction) {
+			if call.Common().StaticCallee() != f || idx >= len(call.Common().Args) {
+				return
+			}
+			sites++
+			a := call.Common().Args[idx]
+			bounded := false
+			eachInstr(g, func(in ssa.Instruction) {
+				lc, ok := in.(*ssa.Call)
+				if !ok {
+					return
+				}
+				if bi, ok := lc.Call.Value.(*ssa.Builtin); !ok || bi.Name() != "len" || len(lc.Call.Args) != 1 || lc.Call.Args[0] != a {
+					return
+				}
+				if ub := upperBoundConst(lc, call.Block()); ub != nil && ub.Cmp(hi) <= 0 {
+					bounded = true
+				}
+			})
+			if !bounded {
+				okAll = false
+			}
+		})
+	}
+	return sites > 0 && okAll
+}
+
 func (c *Ctx) ruleN1N2() {
 	nConv, nMake, nFn := 0, 0, 0
 	wb := c.wordBits()
@@ -383,6 +428,15 @@ func (c *Ctx) ruleN1N2() {
 					if p, ok := x.X.(*ssa.Parameter); ok && c.boundedAtCallers(p, needHi, dhi, needLo, dlo) {
 						c.ok("N1", cons, x.Pos(), "narrowing conversion of a parameter that every caller bounds by a dominating range test")
 						return
+					}
+					// the length of a parameter: every caller bounds the length of what it hands in
+					if lc, ok := x.X.(*ssa.Call); ok {
+						if bi, ok := lc.Call.Value.(*ssa.Builtin); ok && bi.Name() == "len" && len(lc.Call.Args) == 1 {
+							if p, ok := lc.Call.Args[0].(*ssa.Parameter); ok && c.lenBoundedAtCallers(p, dhi) {
+								c.ok("N1", cons, x.Pos(), "narrowing conversion of the length of a parameter whose length every caller bounds by a dominating range test")
+								return
+							}
+						}
 					}
 				}
 				if len(why) == 0 {
